@@ -310,3 +310,158 @@ Proof.
       * apply (@parab_within_half _ _ _ dy) in Py; [exact Py | |];
           apply Qlt_le_weak; apply H; try lia; intros C; inversion C; lia.
 Qed.
+
+(* ---------------------------------------------------------------- torch, factors <= 2 *)
+Lemma Qfloor_unique y z : (inject_Z z <= y)%Q -> (y < inject_Z (z + 1))%Q -> Qfloor y = z.
+Proof.
+  intros H1 H2. pose proof (Qfloor_le y) as F1. pose proof (Qlt_floor y) as F2.
+  assert (A : (inject_Z z < inject_Z (Qfloor y + 1))%Q) by (eapply Qle_lt_trans; eassumption).
+  assert (B : (inject_Z (Qfloor y) < inject_Z (z + 1))%Q) by (eapply Qle_lt_trans; eassumption).
+  rewrite <- Zlt_Qlt in A, B. lia.
+Qed.
+
+Lemma round_he_comp x y : x ==q y -> round_he x = round_he y.
+Proof.
+  intros E. unfold round_he.
+  assert (F : Qfloor x = Qfloor y) by (rewrite E; reflexivity).
+  rewrite F.
+  assert (L1 : Qltb (x - inject_Z (Qfloor y)) (1 # 2) = Qltb (y - inject_Z (Qfloor y)) (1 # 2)).
+  { unfold Qltb. f_equal. apply Qleb_comp; [reflexivity | rewrite E; reflexivity]. }
+  assert (L2 : Qltb (1 # 2) (x - inject_Z (Qfloor y)) = Qltb (1 # 2) (y - inject_Z (Qfloor y))).
+  { unfold Qltb. f_equal. apply Qleb_comp; [rewrite E; reflexivity | reflexivity]. }
+  rewrite L1, L2. reflexivity.
+Qed.
+
+(* round-half-even is odd ... *)
+Lemma round_he_neg x : round_he (- x) = (- round_he x)%Z.
+Proof.
+  set (f := Qfloor x). set (r := (x - inject_Z f)%Q).
+  assert (R0 : (0 <= r)%Q) by (unfold r, f; pose proof (Qfloor_le x); lra).
+  assert (R1 : (r < 1)%Q).
+  { unfold r, f. pose proof (Qlt_floor x) as H. rewrite inject_Z_plus in H.
+    change (inject_Z 1) with 1%Q in H. lra. }
+  destruct (Qeq_dec r 0) as [Z0|NZ].
+  - assert (Ex : x ==q inject_Z f) by (unfold r in Z0; lra).
+    rewrite (round_he_int Ex).
+    apply round_he_int. rewrite Ex, inject_Z_opp. reflexivity.
+  - assert (R0' : (0 < r)%Q) by (destruct (Qlt_le_dec 0 r); [assumption | exfalso; apply NZ; lra]).
+    assert (F' : Qfloor (- x) = (- f - 1)%Z).
+    { apply Qfloor_unique.
+      - rewrite inject_Z_minus, inject_Z_opp. change (inject_Z 1) with 1%Q. unfold r in R1. lra.
+      - replace (- f - 1 + 1)%Z with (- f)%Z by lia. rewrite inject_Z_opp. unfold r in R0'. lra. }
+    unfold round_he. fold f. rewrite F'. fold r.
+    set (r' := (- x - inject_Z (- f - 1))%Q).
+    assert (Er : r' ==q (1 - r)%Q).
+    { unfold r', r. rewrite inject_Z_minus, inject_Z_opp. change (inject_Z 1) with 1%Q. ring. }
+    destruct (Qltb r (1 # 2)) eqn:A.
+    + apply Qltb_spec in A.
+      assert (B : Qltb r' (1 # 2) = false) by (apply Qltb_false; rewrite Er; lra).
+      assert (C : Qltb (1 # 2) r' = true) by (apply Qltb_spec; rewrite Er; lra).
+      rewrite B, C. lia.
+    + apply Qltb_false in A. destruct (Qltb (1 # 2) r) eqn:A2.
+      * apply Qltb_spec in A2.
+        assert (B : Qltb r' (1 # 2) = true) by (apply Qltb_spec; rewrite Er; lra).
+        rewrite B. lia.
+      * apply Qltb_false in A2.
+        assert (B : Qltb r' (1 # 2) = false) by (apply Qltb_false; rewrite Er; lra).
+        assert (C : Qltb (1 # 2) r' = false) by (apply Qltb_false; rewrite Er; lra).
+        rewrite B, C.
+        replace (- f - 1)%Z with (- (f + 1))%Z by lia. rewrite Z.even_opp.
+        replace (f + 1)%Z with (Z.succ f) by lia. rewrite Z.even_succ, <- Z.negb_even.
+        destruct (Z.even f); cbn [negb]; lia.
+Qed.
+
+(* ... and commutes with adding an even integer *)
+Lemma round_he_add_even x (k : Z) : round_he (x + inject_Z (2 * k)) = (round_he x + 2 * k)%Z.
+Proof.
+  set (f := Qfloor x).
+  assert (F' : Qfloor (x + inject_Z (2 * k)) = (f + 2 * k)%Z).
+  { apply Qfloor_unique.
+    - rewrite inject_Z_plus. pose proof (Qfloor_le x). fold f in H. lra.
+    - replace (f + 2 * k + 1)%Z with ((f + 1) + 2 * k)%Z by lia. rewrite inject_Z_plus.
+      pose proof (Qlt_floor x). fold f in H. lra. }
+  unfold round_he. fold f. rewrite F'.
+  assert (Er : (x + inject_Z (2 * k) - inject_Z (f + 2 * k) ==q x - inject_Z f)%Q)
+    by (rewrite inject_Z_plus; ring).
+  assert (L1 : Qltb (x + inject_Z (2 * k) - inject_Z (f + 2 * k)) (1 # 2) = Qltb (x - inject_Z f) (1 # 2)).
+  { unfold Qltb. f_equal. apply Qleb_comp; [reflexivity | exact Er]. }
+  assert (L2 : Qltb (1 # 2) (x + inject_Z (2 * k) - inject_Z (f + 2 * k)) = Qltb (1 # 2) (x - inject_Z f)).
+  { unfold Qltb. f_equal. apply Qleb_comp; [exact Er | reflexivity]. }
+  rewrite L1, L2.
+  assert (Ev : Z.even (f + 2 * k) = Z.even f).
+  { rewrite Z.even_add, Z.even_mul. cbn. destruct (Z.even f); reflexivity. }
+  rewrite Ev. destruct (Qltb (x - inject_Z f) (1 # 2)); [lia|].
+  destruct (Qltb (1 # 2) (x - inject_Z f)); [lia|]. destruct (Z.even f); lia.
+Qed.
+
+Lemma tparab_reverse v0 v1 v2 : tparab v2 v1 v0 ==q (- tparab v0 v1 v2)%Q.
+Proof.
+  unfold tparab.
+  assert (ED : (4 * v1 - 2 * v0 - 2 * v2 ==q 4 * v1 - 2 * v2 - 2 * v0)%Q) by ring.
+  assert (EB : Qeq_bool (4 * v1 - 2 * v0 - 2 * v2) 0 = Qeq_bool (4 * v1 - 2 * v2 - 2 * v0) 0)
+    by (apply Qeqb_comp; [exact ED | reflexivity]).
+  rewrite EB. destruct (Qeq_bool (4 * v1 - 2 * v2 - 2 * v0) 0) eqn:E; [ring|].
+  apply Qeq_bool_neq in E. rewrite ED. field. exact E.
+Qed.
+
+Lemma tparab_comp v0 v1 v2 w0 w1 w2 :
+  v0 ==q w0 -> v1 ==q w1 -> v2 ==q w2 -> tparab v0 v1 v2 ==q tparab w0 w1 w2.
+Proof.
+  intros E0 E1 E2. unfold tparab.
+  assert (ED : (4 * v1 - 2 * v2 - 2 * v0 ==q 4 * w1 - 2 * w2 - 2 * w0)%Q) by (rewrite E0, E1, E2; reflexivity).
+  assert (EB : Qeq_bool (4 * v1 - 2 * v2 - 2 * v0) 0 = Qeq_bool (4 * w1 - 2 * w2 - 2 * w0) 0)
+    by (apply Qeqb_comp; [exact ED | reflexivity]).
+  rewrite EB. destruct (Qeq_bool (4 * w1 - 2 * w2 - 2 * w0) 0); [reflexivity|]. rewrite E0, E1, E2. reflexivity.
+Qed.
+
+Lemma negi_congZ n k : 0 < n -> exists j : Z, Z.of_nat (negi n k) = (- Z.of_nat k + Z.of_nat n * j)%Z.
+Proof.
+  intros Hn. exists (- (- Z.of_nat k / Z.of_nat n))%Z. unfold negi, wrapi.
+  rewrite Z2Nat.id by (apply Z.mod_pos_bound; lia). rewrite Z.mod_eq by lia. lia.
+Qed.
+
+Lemma negc_half n p d d' :
+  0 < n -> d' ==q (- d)%Q ->
+  negc n (inject_Z (round_he ((qN p + d) * 2)) / 2) (inject_Z (round_he ((qN (negi n p) + d') * 2)) / 2).
+Proof.
+  intros Hn Ed. destruct (negi_congZ p Hn) as [j Ej]. exists j.
+  assert (E : ((qN (negi n p) + d') * 2 ==q - ((qN p + d) * 2) + inject_Z (2 * (Z.of_nat n * j)))%Q).
+  { unfold qN. rewrite Ej, Ed, inject_Z_plus, inject_Z_opp, !inject_Z_mult.
+    change (inject_Z 2) with 2%Q. ring. }
+  rewrite (round_he_comp E), round_he_add_even, round_he_neg.
+  rewrite inject_Z_plus, inject_Z_opp, !inject_Z_mult. change (inject_Z 2) with 2%Q.
+  unfold qN. field.
+Qed.
+
+(* torch estimator, upsample_factor <= 2 (half-pixel rounding, no window): any pair of images whose
+   correlation has a unique peak *)
+Theorem torch_swap_negates M N up cc cc' ups ups' p q :
+  2 <= M -> 2 <= N -> up <= 2 -> uniq_max M N cc p q -> reflected_of M N cc cc' ->
+  exists a b a' b',
+    torch_shift M N up cc ups = Some (a, b) /\ torch_shift M N up cc' ups' = Some (a', b') /\
+    neg_mod M a a' /\ neg_mod N b b'.
+Proof.
+  intros HM HN Hup Hu Hr. assert (M0 : 0 < M) by lia. assert (N0 : 0 < N) by lia.
+  pose proof (uniq_max_reflect Hu Hr) as Hu'.
+  pose proof (argmax2_unique Hu) as A1. pose proof (argmax2_unique Hu') as A2.
+  destruct Hu as (Hp & Hq & _).
+  pose proof (negi_lt p M0) as Hp'. pose proof (negi_lt q N0) as Hq'.
+  destruct (prv_props HM Hp) as [P1 _]. destruct (prv_props HN Hq) as [Q1 _].
+  destruct (nxt_props HM Hp) as [P3 _]. destruct (nxt_props HN Hq) as [Q3 _].
+  assert (Ec : cc' (negi M p) (negi N q) ==q cc p q)
+    by (rewrite (Hr _ _ Hp' Hq'), (negi_invol Hp), (negi_invol Hq); reflexivity).
+  assert (Ex0 : cc' (prv M (negi M p)) (negi N q) ==q cc (nxt M p) q).
+  { rewrite (prv_negi _ M0), (Hr _ _ (negi_lt _ M0) Hq'), (negi_invol P3), (negi_invol Hq). reflexivity. }
+  assert (Ex2 : cc' (nxt M (negi M p)) (negi N q) ==q cc (prv M p) q).
+  { rewrite (nxt_negi _ M0), (Hr _ _ (negi_lt _ M0) Hq'), (negi_invol P1), (negi_invol Hq). reflexivity. }
+  assert (Ey0 : cc' (negi M p) (prv N (negi N q)) ==q cc p (nxt N q)).
+  { rewrite (prv_negi _ N0), (Hr _ _ Hp' (negi_lt _ N0)), (negi_invol Q3), (negi_invol Hp). reflexivity. }
+  assert (Ey2 : cc' (negi M p) (nxt N (negi N q)) ==q cc p (prv N q)).
+  { rewrite (nxt_negi _ N0), (Hr _ _ Hp' (negi_lt _ N0)), (negi_invol Q1), (negi_invol Hp). reflexivity. }
+  unfold torch_shift, torch_align, torch_half. rewrite A1, A2.
+  destruct (Nat.leb_spec up 2) as [_|C]; [|lia].
+  eexists _, _, _, _. split; [reflexivity|]. split; [reflexivity|].
+  split; apply centre_negc; auto; apply negc_half; auto.
+  - rewrite (tparab_comp Ex0 Ec Ex2). apply tparab_reverse.
+  - rewrite (tparab_comp Ey0 Ec Ey2). apply tparab_reverse.
+Qed.
